@@ -177,12 +177,6 @@ def unit_correspondence(ctx):
         raise vlib.CheckFailure("C18: idempotence pass answered %d/%d of %d lines" % (len(impl2), len(model2), len(uniq_out)))
     again = {r: parse_canon(l) for r, l in zip(uniq_out, impl2)}
     mism, nontrivial, clause_bad = 0, set(), 0
-    for r, a, b in zip(uniq_out, impl2, model2):
-        if a != b:
-            mism += 1
-            if mism <= 5:
-                ctx.violation("corr:" + tok(r), "correspondence broke on %r (impl=%s model=%s), second pass" % (r, a, b),
-                              {"input_hex": tok(r), "correspondence": "harness/h_c18.c vs Driver/C18.lean"}, found_input=False)
     for i, s in enumerate(inputs):
         res = results[i]
         if isinstance(res, str):
@@ -211,6 +205,12 @@ def unit_correspondence(ctx):
                 # cannot happen while canon_eq_spec holds (model = spec and impl meets every clause => impl = spec)
                 ctx.violation("corr:" + tok(s), "correspondence broke on %r (impl=%s model=%s) but no clause fails" % (s, impl[K * i:K * i + K], model[K * i:K * i + K]),
                               {"input_hex": tok(s), "correspondence": "harness/h_c18.c vs Driver/C18.lean"}, found_input=False)
+    for r, a, b in zip(uniq_out, impl2, model2):
+        if a != b:
+            mism += 1
+            if mism <= 5:
+                ctx.violation("corr:" + tok(r), "correspondence broke on %r (impl=%s model=%s), second pass" % (r, a, b),
+                              {"input_hex": tok(r), "correspondence": "harness/h_c18.c vs Driver/C18.lean"}, found_input=False)
     return {"evaluations": len(lines) + len(lines2), "nontrivial": len(nontrivial), "nexh": nexh, "ncorpus": ncorpus, "nrand": nrand,
             "mism": mism, "clause_bad": clause_bad, "second_pass": len(lines2),
             "samples": [{"input": repr(inputs[i]), "impl": impl[K * i], "model": model[K * i], "impl_memory": impl[K * i + 2][:80]} for i in
